@@ -65,7 +65,8 @@ BASE_FLAGS = ["--unwinding-assertions", "--pointer-check", "--bounds-check", "--
 LIBC_UNWIND = {"vin_bytes.0": 130, "vin_bytes.1": 130, "strlen.0": 70, "strcpy.0": 70, "strcmp.0": 40, "strdup.0": 70,
                "liberasurecode_init.0": 12, "liberasurecode_exit.0": 12,
                "rs_galois_init_tables.0": 16, "gf16_mul_u.0": 17, "gf16_inv_u.0": 17,
-               "gf_mul.0": 9, "gf_inv.0": 9, "ec_init_tables.0": 33, "ec_init_tables.1": 33, "ec_init_tables.2": 33, "m16_mul.0": 17, "m16_inv.0": 17, "m8_mul.0": 9, "m8_inv.0": 9}
+               "gf_mul.0": 9, "gf_inv.0": 9, "ec_init_tables.0": 33, "ec_init_tables.1": 33, "ec_init_tables.2": 33, "m16_mul.0": 17, "m16_inv.0": 17, "m8_mul.0": 9, "m8_inv.0": 9,
+               "lagr16.0": 34, "tab_entry.0": 9}
 
 
 @dataclass
@@ -80,7 +81,7 @@ class Ob:
     noflags: list = field(default_factory=list)
     timeout: int = 300
     mem_gb: int = 8
-    solver: list = field(default_factory=list)      # e.g. ["--sat-solver","cadical"]
+    solver: list = field(default_factory=lambda: ["--sat-solver", "cadical"])
     sample: dict = field(default_factory=dict)      # human-readable description for evidence
     targets: list = field(default_factory=list)     # real functions exercised
     required: bool = True
@@ -345,7 +346,8 @@ def run_ob(ctx, ob):
         r.solver_s = float(m.group(1))
     if results is None:
         r.verdict = "inconclusive" if ("std::bad_alloc" in (out + err) or "Out of memory" in (out + err) or rc in (-9, 137, -6, 134)) else "error"
-        r.note = f"rc={rc} no result section; {msgs[-1500:]} {err[-1500:]}"
+        errs = " | ".join(re.findall(r'"messageText": "([^"]*)",\s*"messageType": "ERROR"', out))
+        r.note = f"rc={rc} no result section; {errs[-600:]} {err[-300:]}"
         return r
     fails = []
     for pr in results:
@@ -483,7 +485,7 @@ def execute(ctx, obs, native_steps=(), assumptions=(), trusted=(), extra_cov=Non
         for fu in as_completed(futs):
             r = fu.result()
             results.append(r)
-            ctx.say(f"  {r.ob.id}: {r.verdict} wall={r.wall:.1f}s rss={r.rss_kb//1024}MB" + (f" fails={len(r.failures)}" if r.failures else "") + (f" note={r.note[:300]}" if r.note else ""))
+            ctx.say(f"  {r.ob.id}: {r.verdict} wall={r.wall:.1f}s rss={r.rss_kb//1024}MB" + (f" fails={len(r.failures)}" if r.failures else "") + (f" note={r.note[-400:]}" if r.note else ""))
             ctx.log.write(json.dumps({"ob": r.ob.id, "verdict": r.verdict, "failures": r.failures, "note": r.note}) + "\n")
             ctx.log.flush()
     results.sort(key=lambda r: r.ob.id)
@@ -568,7 +570,7 @@ def execute(ctx, obs, native_steps=(), assumptions=(), trusted=(), extra_cov=Non
         "functions_encoded": sorted({t for r in results for t in r.ob.targets}),
         "units": sorted({unit_src(u)[0].replace(REPO + "/", "repo:").replace(VERIF + "/", "verif:") for r in results for u in r.ob.units}),
         "bounds": {r.ob.id: dict(unwind=r.ob.unwind, **{k: v for k, v in r.ob.sample.items() if k.startswith("bound")}) for r in results[:400]},
-        "solver": "cbmc 6.11.0 (MiniSat2 default; per-obligation back end in samples/solver)",
+        "solver": "cbmc 6.11.0, SAT back end CaDiCaL (--sat-solver cadical) unless an obligation overrides it",
         "solver_time_s": round(sum(r.solver_s for r in results), 2),
         "query_wall_s": round(sum(r.wall for r in results), 2),
         "max_rss_kb": max([r.rss_kb for r in results] + [0]),
